@@ -652,6 +652,33 @@ func (vc *VC) Arith(op string, x, y *Term, t types.Type) *Term {
 			return App("mod", SInt, x, y)
 		}
 		return App("-", SInt, x, App("*", SInt, y, vc.truncDiv(x, y)))
+	case "&":
+		// bit test against a constant mask (math mode): sum of the selected bits
+		c, v := y, x
+		cv, ok := c.IntVal()
+		if !ok {
+			c, v = x, y
+			cv, ok = c.IntVal()
+		}
+		if ok && cv.Sign() >= 0 && cv.BitLen() <= 64 {
+			var sum *Term = IntLit(0)
+			n := 0
+			for i := 0; i < cv.BitLen(); i++ {
+				if cv.Bit(i) == 1 {
+					p := BigLit(new(big.Int).Lsh(big.NewInt(1), uint(i)))
+					bit := Ite(Eq(App("mod", SInt, App("div", SInt, v, p), IntLit(2)), IntLit(1)), p, IntLit(0))
+					if n == 0 {
+						sum = bit
+					} else {
+						sum = App("+", SInt, sum, bit)
+					}
+					n++
+				}
+			}
+			if n <= 8 {
+				return sum
+			}
+		}
 	case "<<":
 		if yv, ok := y.IntVal(); ok && yv.IsInt64() && yv.Int64() < 128 {
 			return vc.Arith("*", x, BigLit(new(big.Int).Lsh(big.NewInt(1), uint(yv.Int64()))), t)
